@@ -14,7 +14,20 @@ import types
 import joblib
 from joblib import _store_backends as sb
 
-BASE = real_datetime.datetime(2020, 1, 1)
+# results go to the original stdout; whatever joblib prints (Memory(verbose=...)) goes to stderr
+OUT = os.fdopen(os.dup(1), "w")
+os.dup2(2, 1)
+sys.stdout = sys.stderr
+
+BASE0 = real_datetime.datetime(2020, 1, 1)
+BASE = BASE0
+
+
+def set_base(c):
+    """time 0 of the case: 2020-01-01, or the EPOCH (a cache restored from an archive with zeroed timestamps: an access
+    time of exactly 0.0 is an access time like any other, and the oldest possible one)"""
+    global BASE
+    BASE = real_datetime.datetime.fromtimestamp(0) if c.get("base") == "epoch" else BASE0
 NOW = [0]
 
 
@@ -47,6 +60,7 @@ class Stub(sb.StoreBackendMixin):
 
 
 def run_unit(c):
+    set_base(c)
     NOW[0] = c["now"]
     items = [sb.CacheItemInfo(p, s, BASE + real_datetime.timedelta(seconds=t)) for p, s, t in c["items"]]
     al = None if c["al"] is None else real_datetime.timedelta(seconds=c["al"])
@@ -62,6 +76,7 @@ def payload(n):
 
 
 def run_e2e(c):
+    set_base(c)
     NOW[0] = c["now"]
     d = tempfile.mkdtemp(prefix="verif-c18-")
     cwd0 = os.getcwd()
@@ -76,7 +91,7 @@ def run_e2e(c):
             loc = "cachedir" if how == "rel" else os.path.join(".", "sub", "cachedir")
         else:
             loc = d
-        mem = joblib.Memory(loc, verbose=0)
+        mem = joblib.Memory(loc, verbose=c.get("verbose", 0))
         calls = []
 
         def f(arg, n):
@@ -203,5 +218,5 @@ for line in sys.stdin:
         r = run_unit(c) if c["mode"] == "unit" else run_e2e(c)
     except BaseException as e:  # harness-level failure is reported, not hidden
         r = {"harness_error": repr(e)}
-    sys.stdout.write(json.dumps(r) + "\n")
-    sys.stdout.flush()
+    OUT.write(json.dumps(r) + "\n")
+    OUT.flush()
